@@ -61,12 +61,42 @@ def _int_const(m: pf.Module, e: ast.AST) -> Optional[int]:
     return None
 
 
+_KEEP: List[ast.AST] = []   # normalised copies stay alive for the whole run (engines cache facts by id())
+
+
+def _mentions_name(e: ast.AST, name: str) -> bool:
+    return any(isinstance(x, ast.Name) and x.id == name for x in ast.walk(e))
+
+
+def _normalise_fn(fn: pf.FuncDef) -> pf.FuncDef:
+    """A copy of fn in which `x = x + w` / `x = x - w` (and `x = c + x` for a numeric literal c) is the augmented assignment it means.
+    Nothing else is changed; locations are kept."""
+    import copy
+    fn2 = copy.deepcopy(fn)
+
+    class _N(ast.NodeTransformer):
+        def visit_Assign(self, node: ast.Assign):
+            self.generic_visit(node)
+            if len(node.targets) == 1 and isinstance(node.targets[0], ast.Name) and isinstance(node.value, ast.BinOp):
+                t, v = node.targets[0].id, node.value
+                if isinstance(v.left, ast.Name) and v.left.id == t and not _mentions_name(v.right, t):
+                    return ast.copy_location(ast.AugAssign(target=ast.Name(id=t, ctx=ast.Store()), op=v.op, value=v.right), node)
+                if isinstance(v.op, (ast.Add, ast.Mult)) and isinstance(v.right, ast.Name) and v.right.id == t and isinstance(v.left, ast.Constant) \
+                        and isinstance(v.left.value, (int, float)) and not isinstance(v.left.value, bool):
+                    return ast.copy_location(ast.AugAssign(target=ast.Name(id=t, ctx=ast.Store()), op=v.op, value=v.left), node)
+            return node
+    fn2 = _N().visit(fn2)
+    ast.fix_missing_locations(fn2)
+    _KEEP.append(fn2)
+    return fn2
+
+
 def _retry_loop(ctx: Ctx, fn: pf.FuncDef, name: str):
     """Recognise   tries = 0; while True: try: return [await] f(...) except ...: ... ; <assignments>; <sleep>"""
     loops = [st for st in fn.body if isinstance(st, ast.While)]
     ctx.need(len(loops) == 1, f'{name}: expected exactly one top-level while loop')
     loop = loops[0]
-    ctx.need(isinstance(loop.test, ast.Constant) and loop.test.value is True, f'{name}: loop is not `while True`')
+    ctx.need(isinstance(loop.test, ast.Constant) and bool(loop.test.value) is True and not loop.orelse, f'{name}: loop is not `while True`')
     ctx.need(len(loop.body) >= 1 and isinstance(loop.body[0], ast.Try), f'{name}: loop body does not start with try')
     tr = loop.body[0]
     ctx.need(len(tr.body) == 1 and isinstance(tr.body[0], ast.Return), f'{name}: try body is not a single return')
@@ -87,76 +117,250 @@ def _fmt(x) -> str:
     return f'{float(x):g}'
 
 
+_FLIP = {ast.Lt: ast.Gt, ast.LtE: ast.GtE, ast.Gt: ast.Lt, ast.GtE: ast.LtE}
+_INERT_ROOTS = ('log', 'logging', 'logger', 'warnings', 'print', 'traceback')
+_NOT_EXCEPTION = ('KeyboardInterrupt', 'asyncio.CancelledError', 'CancelledError', 'asyncio.exceptions.CancelledError', 'SystemExit', 'GeneratorExit')
+
+
+def _local_int_const(m: pf.Module, fn: pf.FuncDef, e: ast.AST) -> Optional[int]:
+    """An integer literal, a module-level integer constant, or a local of fn bound exactly once to one of those."""
+    c = _int_const(m, e)
+    if c is not None:
+        return c
+    if isinstance(e, ast.Name):
+        d = pf.single_def(fn, e.id)
+        if isinstance(d, ast.expr) and not isinstance(d, ast.Name):
+            return _int_const(m, d)
+        if isinstance(d, ast.Name):
+            return _int_const(m, d)
+    return None
+
+
+def _counter_cmp(m: pf.Module, fn: pf.FuncDef, a: ast.AST, counters: Set[str]):
+    """(counter, comparison class, constant) for `counter <op> K` and `K <op> counter` (K an integer constant), else None."""
+    if not (isinstance(a, ast.Compare) and len(a.ops) == 1 and type(a.ops[0]) in _FLIP):
+        return None
+    l, r, op = a.left, a.comparators[0], type(a.ops[0])
+    if isinstance(l, ast.Name) and l.id in counters and _local_int_const(m, fn, r) is not None and not (isinstance(r, ast.Name) and r.id in counters):
+        return l.id, op, _local_int_const(m, fn, r)
+    if isinstance(r, ast.Name) and r.id in counters and _local_int_const(m, fn, l) is not None and not (isinstance(l, ast.Name) and l.id in counters):
+        return r.id, _FLIP[op], _local_int_const(m, fn, l)
+    return None
+
+
+def _inert_call(m: pf.Module, c: ast.AST, depth: int = 2) -> bool:
+    """A call that can neither wait, nor leave the handler, nor change what the loop does next: logging, or a synchronous module-level
+    helper made of such calls only."""
+    if not isinstance(c, ast.Call) or any(isinstance(x, (ast.Await, ast.Yield, ast.YieldFrom)) for x in ast.walk(c)):
+        return False
+    d = pf.dotted(c.func) or ''
+    if d.split('.')[0] in _INERT_ROOTS and d not in SLEEPS:
+        return True
+    if depth > 0 and isinstance(c.func, ast.Name) and m.has_func(c.func.id):
+        h = m.func(c.func.id)
+        if isinstance(h, ast.FunctionDef) and not pf.decorators(h):
+            return all(_inert_stmt(m, s, set(), depth - 1) for s in h.body)
+    return False
+
+
+def _inert_stmt(m: pf.Module, s: ast.stmt, loaded_outside: Set[str], depth: int = 2) -> bool:
+    if isinstance(s, ast.Pass):
+        return True
+    if isinstance(s, ast.Expr):
+        return isinstance(s.value, ast.Constant) or _inert_call(m, s.value, depth)
+    if isinstance(s, (ast.Assign, ast.AnnAssign)):
+        ts = s.targets if isinstance(s, ast.Assign) else [s.target]
+        if s.value is None or any(isinstance(x, (ast.Await, ast.Yield, ast.YieldFrom, ast.NamedExpr)) for x in ast.walk(s.value)):
+            return False
+        return all(isinstance(t, ast.Name) and t.id not in loaded_outside for t in ts)
+    if isinstance(s, ast.If):
+        return all(_inert_stmt(m, x, loaded_outside, depth) for x in s.body + s.orelse)
+    return False
+
+
+def _prune_inert_ifs(m: pf.Module, fn: pf.FuncDef, stmts: List[ast.stmt]) -> List[ast.stmt]:
+    """The statement list with every `if` whose arms only log (and bind names nobody else reads) replaced by `pass`: its test cannot
+    influence retry / re-raise / the counters / the delay.  Works on the (already copied) tree in place."""
+    out: List[ast.stmt] = []
+    for s in stmts:
+        if isinstance(s, ast.If):
+            inside = {id(x) for x in ast.walk(s)}
+            loaded_outside = {x.id for x in ast.walk(fn) if isinstance(x, ast.Name) and isinstance(x.ctx, ast.Load) and id(x) not in inside}
+            if all(_inert_stmt(m, x, loaded_outside) for x in s.body + s.orelse) and not any(isinstance(x, (ast.Await, ast.NamedExpr)) for x in ast.walk(s.test)):
+                out.append(ast.copy_location(ast.Pass(), s))
+                continue
+            s.body = _prune_inert_ifs(m, fn, s.body)
+            s.orelse = _prune_inert_ifs(m, fn, s.orelse)
+        elif isinstance(s, (ast.With, ast.AsyncWith)):
+            s.body = _prune_inert_ifs(m, fn, s.body)
+        out.append(s)
+    return out
+
+
+def _expand_test_locals(fn: pf.FuncDef, handler: ast.ExceptHandler, unstable: Set[str]) -> None:
+    """`limited = is_limited_retries_error(e)` ... `if tries <= 5 and limited:`: a boolean local of the handler that is bound once, ahead of
+    the test, to an expression over names that do not change inside the loop is replaced by that expression in the tests (in place)."""
+    import copy
+    params = {a.arg for a in fn.args.posonlyargs + fn.args.args + fn.args.kwonlyargs}
+    in_handler = {id(x) for s in handler.body for x in ast.walk(s)}
+    def_stmt: Dict[str, ast.stmt] = {}
+    for s in handler.body:
+        for x in ast.walk(s):
+            if isinstance(x, ast.Assign) and len(x.targets) == 1 and isinstance(x.targets[0], ast.Name):
+                def_stmt[x.targets[0].id] = x
+
+    def stable(e: ast.AST, depth: int) -> bool:
+        for x in ast.walk(e):
+            if isinstance(x, (ast.Await, ast.Yield, ast.YieldFrom, ast.NamedExpr, ast.Lambda)):
+                return False
+            if isinstance(x, ast.Name) and x.id in unstable:
+                return False
+        return True
+
+    class _S(ast.NodeTransformer):
+        def __init__(self, line: int, depth: int):
+            self.line, self.depth = line, depth
+
+        def visit_Name(self, node: ast.Name):
+            if isinstance(node.ctx, ast.Load) and node.id not in params and self.depth > 0 and node.id not in unstable:
+                d = pf.single_def(fn, node.id)
+                st = def_stmt.get(node.id)
+                if isinstance(d, ast.expr) and st is not None and st.value is d and id(st) in in_handler and st.lineno < self.line and stable(d, self.depth):
+                    return _S(st.lineno, self.depth - 1).visit(copy.deepcopy(d))
+            return node
+
+    for s in handler.body:
+        for x in ast.walk(s):
+            if isinstance(x, ast.If):
+                x.test = _S(x.lineno, 3).visit(x.test)
+    ast.fix_missing_locations(handler)
+
+
+def _always_bare_raises(body: Sequence[ast.stmt]) -> bool:
+    return len(body) >= 1 and isinstance(body[-1], ast.Raise) and body[-1].exc is None and all(isinstance(s, (ast.Expr, ast.Pass)) and not pf.has_await(s) for s in body[:-1])
+
+
 def _check_loop(ctx: Ctx, m: pf.Module, name: str, limited: bool, de: cf.DelayEval, max_s: Fraction):
-    fn = m.func(name)
+    fn = _normalise_fn(m.func(name))
     loop, tr, after = _retry_loop(ctx, fn, name)
     pre = [st for st in fn.body if st is not loop]
     # counters initialised to a literal before the loop
     inits: Dict[str, int] = {}
     for st in pre:
-        if isinstance(st, ast.Assign) and len(st.targets) == 1 and isinstance(st.targets[0], ast.Name) and isinstance(st.value, ast.Constant) \
-                and isinstance(st.value.value, int) and not isinstance(st.value.value, bool):
-            inits[st.targets[0].id] = st.value.value
-    ctx.need(inits.get('tries') == 0, f'{name}: `tries = 0` not found')
+        tgt = st.targets[0] if isinstance(st, ast.Assign) and len(st.targets) == 1 else st.target if isinstance(st, ast.AnnAssign) else None
+        val0 = getattr(st, 'value', None)
+        if isinstance(tgt, ast.Name) and isinstance(val0, ast.Constant) and isinstance(val0.value, int) and not isinstance(val0.value, bool):
+            inits[tgt.id] = val0.value
+    loop_assigned = {t.id for n in ast.walk(loop) for t in (n.targets if isinstance(n, ast.Assign) else [n.target] if isinstance(n, (ast.AugAssign, ast.AnnAssign)) else [])
+                     if isinstance(t, ast.Name)}
+    for n in ast.walk(loop):
+        if isinstance(n, ast.Name) and isinstance(n.ctx, ast.Store):
+            loop_assigned.add(n.id)
+    loop_counters = {c for c in inits if c in loop_assigned}
+    # the failure counter is the one the back-off is computed from (by role, not by name)
+    ctx.need(len(after) >= 1, f'{name}: no statement after the try in the loop body')
+    roles: Set[str] = set()
+    roles2: Set[str] = set()
+    tail_call = _sleep_call(after[-1])
+    for c in ast.walk(loop):
+        if isinstance(c, ast.Call):
+            a0 = c.args[0] if c.args else next((k.value for k in c.keywords if k.arg == 'tries'), None)
+            if isinstance(a0, ast.Name) and a0.id in loop_counters:
+                if pf.dotted(c.func) == de.delay_fn or c is tail_call:
+                    roles.add(a0.id)
+                elif isinstance(c.func, ast.Name) and m.has_func(c.func.id):
+                    roles2.add(a0.id)
+    if len(roles) != 1:
+        roles = roles2 if len(roles2) == 1 and not roles else set(loop_counters) if len(loop_counters) == 1 and not roles else roles
+    ctx.need(len(roles) == 1, f'{name}: the failure counter (initialised to 0 before the loop, incremented in it, handed to {de.delay_fn} / the sleep helper) is not recognised '
+             f'(candidates {sorted(roles) or sorted(loop_counters)})')
+    tn = next(iter(roles))
+    ctx.need(inits.get(tn) == 0, f'{name}: `{tn} = 0` not found')
+    if tn != de.tries:
+        de = cf.DelayEval(m, int(de.blo), int(de.bhi), de.delay_fn, tn, int(de.b1hi), int(de.base), model=de.model)
 
     # handlers before `except Exception` must only re-raise and must not be broader than Exception
     exc_handler = None
     for h in tr.handlers:
-        tname = pf.dotted(h.type) if h.type is not None else None
-        if tname == 'Exception':
+        tnames = [pf.dotted(x) for x in (h.type.elts if isinstance(h.type, ast.Tuple) else [h.type])] if h.type is not None else ['BaseException']
+        tname = ', '.join(str(x) for x in tnames)
+        if tnames == ['Exception']:
             exc_handler = h
             break
-        only_raise = len(h.body) == 1 and isinstance(h.body[0], ast.Raise) and h.body[0].exc is None
-        ctx.check(only_raise and tname in ('KeyboardInterrupt', 'asyncio.CancelledError'),
-                  'R1', f'{F}::{name}::except {tname}',
-                  f'handler `except {tname}` ahead of `except Exception` must only re-raise', m.path, h.lineno)
+        consh = f'{F}::{name}::except {tname}'
+        ctx.need(all(x is not None for x in tnames), f'{name}: handler type `{pf.nsrc(h.type)}` not resolved')
+        hcalls_pred = any(isinstance(x, ast.Call) and pf.dotted(x.func) in PREDS for s in h.body for x in ast.walk(s))
+        if _always_bare_raises(h.body):
+            if all(x in _NOT_EXCEPTION for x in tnames):
+                ctx.ok('R1', consh, 're-raises at once')
+            elif 'BaseException' in tnames:
+                ctx.bad('R1', consh, f'`except {tname}: raise` ahead of `except Exception` re-raises every failure: nothing is retried, transient errors included', m.path, h.lineno)
+            else:
+                raise AnalysisError(f'{name}: `except {tname}: raise` ahead of `except Exception`: whether these classes are transient is a policy question (not decided)')
+        elif all(x in _NOT_EXCEPTION for x in tnames) and not hcalls_pred and not any(isinstance(x, (ast.Raise, ast.Return)) for s in h.body for x in ast.walk(s)):
+            ctx.bad('R1', consh, f'handler `except {tname}` ahead of `except Exception` never re-raises: an interrupt / a cancellation is swallowed and the operation is run again, '
+                    f'although only transient failures may be retried', m.path, h.lineno)
+        else:
+            raise AnalysisError(f'{name}: handler `except {tname}` ahead of `except Exception` is not a plain re-raise (not analysed)')
     ctx.need(exc_handler is not None, f'{name}: no `except Exception` handler')
     evar = exc_handler.name
     cons = f'{F}::{name}::except Exception'
 
+    # see through the idioms that do not change the decision: boolean locals holding a classifier result, arms that only log
+    unstable = {n for n, ds in pf.assignments(fn).items() if len(ds) > 1 and not (n == evar and all(isinstance(d, ast.ExceptHandler) for d in ds))}
+    _expand_test_locals(fn, exc_handler, unstable)
+    exc_handler.body = _prune_inert_ifs(m, fn, exc_handler.body)
+
     atoms = absdom.collect_test_atoms(exc_handler.body)
-    classified: Dict[str, Tuple[str, ...]] = {}
+    classified: Dict[str, Tuple] = {}
     free: List[str] = []
     consts: List[int] = [LIMITED_RETRIES]
     budgets: Set[str] = set()
     for a in atoms:
         k = absdom.atom_key(a)
+        cc = _counter_cmp(m, fn, a, set(inits))
         if isinstance(a, ast.Call) and pf.dotted(a.func) in PREDS and len(a.args) == 1 and isinstance(a.args[0], ast.Name) and a.args[0].id == evar and not a.keywords:
             classified[k] = ('pred', pf.dotted(a.func))
-        elif isinstance(a, ast.Compare) and isinstance(a.left, ast.Name) and a.left.id in inits and len(a.ops) == 1 \
-                and isinstance(a.ops[0], (ast.LtE, ast.Lt, ast.Gt, ast.GtE)) and _int_const(m, a.comparators[0]) is not None:
-            classified[k] = ('counter', a.left.id)
-            consts.append(_int_const(m, a.comparators[0]))  # type: ignore[arg-type]
-            if a.left.id != 'tries':
-                budgets.add(a.left.id)
+        elif cc is not None:
+            classified[k] = ('counter',) + cc
+            consts.append(cc[2])
+            if cc[0] != tn:
+                budgets.add(cc[0])
         else:
             ctx.need(not any(isinstance(x, ast.Call) and pf.dotted(x.func) in PREDS for x in ast.walk(a)),
                      f'{name}: classifier call inside an unrecognised test `{k}`')
+            touched = {x.id for x in ast.walk(a) if isinstance(x, ast.Name)} & (set(inits) | loop_assigned | ({evar} if evar else set()))
+            ctx.need(not touched, f'{name}: the test `{k}` (on {sorted(touched)}) decides between retrying and re-raising but is not a classifier call or a comparison of a counter '
+                     f'with a constant: not understood')
             free.append(k)
     ctx.need(len(free) <= 6, f'{name}: too many unclassified predicates in handler ({free})')
     ctx.need(len(budgets) <= 1, f'{name}: several budget counters ({sorted(budgets)})')
 
-    # a dedicated budget counter must be monotone inside the loop: only `+= 1`
-    for b in sorted(budgets):
-        for n in ast.walk(loop):
-            tgt = None
-            if isinstance(n, ast.Assign):
-                tgt = [t for t in n.targets if isinstance(t, ast.Name) and t.id == b]
-            elif isinstance(n, (ast.AugAssign, ast.AnnAssign)) and isinstance(n.target, ast.Name) and n.target.id == b:
-                tgt = [n.target]
-            if not tgt:
+    # every write of a counter inside the loop must be an augmented assignment by a constant (after normalisation)
+    for n in ast.walk(loop):
+        stored = [t.id for t in ast.walk(n) if isinstance(t, ast.Name) and isinstance(t.ctx, ast.Store) and t.id in ({tn} | budgets)] if isinstance(n, ast.stmt) and not isinstance(
+            n, (ast.If, ast.While, ast.For, ast.Try, ast.With, ast.AsyncWith, ast.AsyncFor)) else []
+        for b in stored:
+            aug_const = isinstance(n, ast.AugAssign) and isinstance(n.op, (ast.Add, ast.Sub)) and _local_int_const(m, fn, n.value) is not None
+            if b == tn:
+                ctx.need(aug_const, f'{name}: `{pf.nsrc(n)[:80]}` writes the failure counter in a way that is not `{tn} += <constant>` (not analysed)')
                 continue
-            mono = isinstance(n, ast.AugAssign) and isinstance(n.op, ast.Add) and _int_const(m, n.value) is not None and _int_const(m, n.value) >= 1  # type: ignore[operator]
-            if not mono:
-                ctx.bad('R1', f'{cons}::budget {b} is monotone',
-                        f'`{pf.nsrc(n)}` re-arms the limited-retry budget `{b}` inside the retry loop: the number of retries granted to limited-retry errors is no longer '
-                        f'bounded by {LIMITED_RETRIES} over the whole call - e.g. the history L L L L T L L L L T ... (L = limited-retry only, T = transient) is retried for ever',
-                        m.path, n.lineno)
+            # a dedicated budget counter must be monotone inside the loop: only `+= k`
+            mono = aug_const and isinstance(n.op, ast.Add) and _local_int_const(m, fn, n.value) >= 1  # type: ignore[operator]
+            if mono:
+                continue
+            rearm = (isinstance(n, ast.Assign) and _local_int_const(m, fn, n.value) is not None) or (aug_const and (isinstance(n.op, ast.Sub) or _local_int_const(m, fn, n.value) < 0))  # type: ignore[operator]
+            ctx.need(rearm, f'{name}: `{pf.nsrc(n)[:80]}` writes the budget counter `{b}` in a way that is not understood')
+            ctx.bad('R1', f'{cons}::budget {b} is monotone',
+                    f'`{pf.nsrc(n)}` re-arms the limited-retry budget `{b}` inside the retry loop: the number of retries granted to limited-retry errors is no longer '
+                    f'bounded by {LIMITED_RETRIES} over the whole call - e.g. the history L L L L T L L L L T ... (L = limited-retry only, T = transient) is retried for ever',
+                    m.path, n.lineno)
     hi = max(consts) + 3
-    counters = ['tries'] + sorted(budgets)
+    counters = [tn] + sorted(budgets)
 
     n_eval = 0
     fails = []
+    undecided: List[str] = []
     incr_problems = []
     retried_paths: Dict[Tuple[int, ...], Tuple[List[ast.stmt], dict]] = {}
     for k in range(1, hi + 1):  # failure index = order class of `tries` against every constant it is compared with
@@ -164,7 +368,7 @@ def _check_loop(ctx: Ctx, m: pf.Module, name: str, limited: bool, de: cf.DelayEv
             for pv in absdom.valuations(PREDS):
                 for fv in absdom.valuations(free):
                     executed: List[ast.stmt] = []
-                    start = {'tries': k - 1}
+                    start = {tn: k - 1}
                     for b in budgets:
                         start[b] = inits[b] + g
 
@@ -175,20 +379,28 @@ def _check_loop(ctx: Ctx, m: pf.Module, name: str, limited: bool, de: cf.DelayEv
                             return fv[key]
                         if kind[0] == 'pred':
                             return pv[kind[1]]
-                        cname = kind[1]
-                        incs = sum(_int_const(m, s.value) or 0 for s in executed if isinstance(s, ast.AugAssign) and pf.nsrc(s.target) == cname and isinstance(s.op, ast.Add))
+                        cname, op, c = kind[1], kind[2], kind[3]
+                        incs = sum((_local_int_const(m, fn, s.value) or 0) * (1 if isinstance(s.op, ast.Add) else -1)
+                                   for s in executed if isinstance(s, ast.AugAssign) and pf.nsrc(s.target) == cname)
                         cur = start[cname] + incs
-                        op = atom.ops[0]  # type: ignore[attr-defined]
-                        c = _int_const(m, atom.comparators[0])  # type: ignore[attr-defined]
-                        return {ast.LtE: cur <= c, ast.Lt: cur < c, ast.Gt: cur > c, ast.GtE: cur >= c}[type(op)]
+                        return {ast.LtE: cur <= c, ast.Lt: cur < c, ast.Gt: cur > c, ast.GtE: cur >= c}[op]
 
                     o = absdom.walk_block(exc_handler.body, val, executed)
                     n_eval += 1
                     T, R, L = pv['is_transient_error'], pv['is_rate_limit_error'], pv['is_limited_retries_error']
                     got_retry = o.kind == 'fall'
                     state = {'failure': k, **({'granted': g} if budgets else {}), **pv}
-                    if o.kind not in ('fall', 'raise') or (o.kind == 'raise' and o.node.exc is not None):  # type: ignore[union-attr]
-                        fails.append((state, f'handler leaves by {o.kind}'))
+                    if o.kind == 'raise' and o.node.exc is not None and not (  # type: ignore[union-attr]
+                            isinstance(o.node.exc, ast.Name) and o.node.exc.id == evar and o.node.cause is None):  # type: ignore[union-attr]
+                        undecided.append(f'`{pf.nsrc(o.node)[:80]}` raises a different exception object')
+                        continue
+                    waits = any(pf.has_await(s) or any(isinstance(x, ast.Call) and ((pf.dotted(x.func) or '') in SLEEPS or (pf.dotted(x.func) or '').endswith('sleep_before_try'))
+                                                       for x in ast.walk(s)) for s in executed)
+                    if o.kind == 'break' or (o.kind == 'continue' and waits):
+                        undecided.append(f'the handler leaves by `{o.kind}`')
+                        continue
+                    if o.kind not in ('fall', 'raise'):
+                        fails.append((state, f'handler leaves by {o.kind}' + (' without waiting' if o.kind == 'continue' else '')))
                         continue
                     if not limited:
                         want: Optional[bool] = T
@@ -204,8 +416,8 @@ def _check_loop(ctx: Ctx, m: pf.Module, name: str, limited: bool, de: cf.DelayEv
                     if want is not None and got_retry != want:
                         fails.append((state, 'retries' if got_retry else 're-raises'))
                     if got_retry:
-                        incs = [s for s in executed if isinstance(s, ast.AugAssign) and pf.nsrc(s.target) == 'tries']
-                        if not (len(incs) == 1 and isinstance(incs[0].op, ast.Add) and pf.nsrc(incs[0].value) == '1'):
+                        incs = [s for s in executed if isinstance(s, ast.AugAssign) and pf.nsrc(s.target) == tn]
+                        if not (len(incs) == 1 and isinstance(incs[0].op, ast.Add) and _local_int_const(m, fn, incs[0].value) == 1):
                             incr_problems.append(state)
                         for b in budgets:
                             if L and not T and not R:
@@ -218,10 +430,12 @@ def _check_loop(ctx: Ctx, m: pf.Module, name: str, limited: bool, de: cf.DelayEv
         state, what = fails[0]
         ctx.bad('R1', cons, f'{state}: handler {what}' + (' the statement allows at most five such retries ' if what.endswith(';') else ', the statement requires the opposite ') +
                 f'({len(fails)} of {n_eval} table rows wrong)', m.path, exc_handler.lineno, extra=[(a, b) for a, b in fails[:10]])
+    elif undecided:
+        raise AnalysisError(f'{name}: {undecided[0]} on some row of the decision table (not analysed)')
     else:
-        ctx.ok('R1', cons, {'table_rows': n_eval, 'predicates': sorted(' '.join(v) for v in classified.values()), 'free_atoms': free, 'counters': counters})
+        ctx.ok('R1', cons, {'table_rows': n_eval, 'predicates': sorted(' '.join(str(x.__name__ if isinstance(x, type) else x) for x in v) for v in classified.values()), 'free_atoms': free, 'counters': counters})
     ctx.check(not incr_problems, 'R2', f'{F}::{name}::tries increment',
-              f'`tries` is not incremented exactly once on a retried failure (e.g. {incr_problems[0]})' if incr_problems else '',
+              f'`{tn}` is not incremented exactly once on a retried failure (e.g. {incr_problems[0]})' if incr_problems else '',
               m.path, exc_handler.lineno)
 
     # ---------------- R2: what is slept on, on every retried path
@@ -233,8 +447,6 @@ def _check_loop(ctx: Ctx, m: pf.Module, name: str, limited: bool, de: cf.DelayEv
     cname = pf.dotted(call.func)
     cons2 = f'{F}::{name}::sleep'
     params_ext = {a.arg for a in fn.args.args + fn.args.kwonlyargs} | ({evar} if evar else set())
-    loop_assigned = {t.id for n in ast.walk(loop) for t in (n.targets if isinstance(n, ast.Assign) else [n.target] if isinstance(n, (ast.AugAssign, ast.AnnAssign)) else [])
-                     if isinstance(t, ast.Name)}
     problems: List[Tuple[str, int]] = []
     declines: List[str] = []
     n_paths = 0
@@ -244,15 +456,15 @@ def _check_loop(ctx: Ctx, m: pf.Module, name: str, limited: bool, de: cf.DelayEv
         env: Dict[str, cf.AV] = {}
         if evar:
             env[evar] = de.external(evar)
-        for v in loop_assigned - {'tries'}:
+        for v in loop_assigned - {tn}:
             env[v] = cf.AV(-cf.INF, cf.INF, stale=True, origin=f'`{v}` as left by an earlier iteration (unbound on the first failure)')
         offset = 0
         last_def: Dict[str, ast.stmt] = {}
         try:
             for s in list(executed) + list(after[:-1]):
                 if isinstance(s, ast.AugAssign) and isinstance(s.target, ast.Name):
-                    if s.target.id == 'tries':
-                        if isinstance(s.op, ast.Add) and _int_const(m, s.value) == 1:
+                    if s.target.id == tn:
+                        if isinstance(s.op, ast.Add) and _local_int_const(m, fn, s.value) == 1:
                             offset += 1
                         else:
                             offset = -99
@@ -265,13 +477,13 @@ def _check_loop(ctx: Ctx, m: pf.Module, name: str, limited: bool, de: cf.DelayEv
                 else:
                     continue
                 try:
-                    env['tries'] = cf.AV(Fraction(max(offset, 0)), cf.INF, origin='the unbounded failure count `tries`')
+                    env[tn] = cf.AV(Fraction(max(offset, 0)), cf.INF, origin=f'the unbounded failure count `{tn}`')
                     env[tgt] = de.eval(value, env, None, offset, params_ext)
                     last_def[tgt] = s
                 except cf.Decline:
                     env.pop(tgt, None)
             # the value handed to the sleep
-            env['tries'] = cf.AV(Fraction(max(offset, 0)), cf.INF, origin='the unbounded failure count `tries`')
+            env[tn] = cf.AV(Fraction(max(offset, 0)), cf.INF, origin=f'the unbounded failure count `{tn}`')
             if cname in SLEEPS:
                 ctx.need(len(call.args) == 1 and not call.keywords, f'{name}: expected `{cname}(x)`, found {pf.nsrc(st)}')
                 v = de.eval(call.args[0], env, None, offset, params_ext)
@@ -280,10 +492,18 @@ def _check_loop(ctx: Ctx, m: pf.Module, name: str, limited: bool, de: cf.DelayEv
                 ctx.need(isinstance(call.func, ast.Name) and m.has_func(call.func.id), f'{name}: `{pf.nsrc(st)}` is neither a sleep nor a helper of this module')
                 h, sub, henv, hext, _key = de.bind_helper(call, env, None, offset, params_ext)
                 body = [s2 for s2 in h.body if not (isinstance(s2, ast.Expr) and isinstance(s2.value, ast.Constant))]
-                ctx.need(len(body) == 1 and _sleep_call(body[0]) is not None and pf.dotted(_sleep_call(body[0]).func) in SLEEPS  # type: ignore[union-attr]
-                         and len(_sleep_call(body[0]).args) == 1, f'{h.name}: body is not a single sleep call')  # type: ignore[union-attr]
-                v = sub.eval(_sleep_call(body[0]).args[0], henv, h, offset, hext)  # type: ignore[union-attr]
-                where = body[0]
+                # straight-line helper: locals bound once each (resolved by the evaluator through their definitions), then the one sleep
+                lead, last = body[:-1], body[-1:]
+                bound_once = all(isinstance(s2, (ast.Assign, ast.AnnAssign)) and isinstance(s2.targets[0] if isinstance(s2, ast.Assign) else s2.target, ast.Name)
+                                 and (len(s2.targets) == 1 if isinstance(s2, ast.Assign) else s2.value is not None) and not pf.has_await(s2) for s2 in lead)
+                hparams = {a.arg for a in h.args.posonlyargs + h.args.args + h.args.kwonlyargs}
+                lnames = [(s2.targets[0] if isinstance(s2, ast.Assign) else s2.target).id for s2 in lead] if bound_once else []  # type: ignore[union-attr]
+                ctx.need(bound_once and len(set(lnames)) == len(lnames) and not (set(lnames) & hparams) and len(last) == 1 and _sleep_call(last[0]) is not None
+                         and pf.dotted(_sleep_call(last[0]).func) in SLEEPS  # type: ignore[union-attr]
+                         and len(_sleep_call(last[0]).args) == 1 and not _sleep_call(last[0]).keywords,  # type: ignore[union-attr]
+                         f'{h.name}: body is not <locals bound once>; <one sleep call>')
+                v = sub.eval(_sleep_call(last[0]).args[0], henv, h, offset, hext)  # type: ignore[union-attr]
+                where = last[0]
         except cf.Decline as e:
             declines.append(f'{name}: the value slept on is not analysable on the path {state}: {e}')
             continue
@@ -325,11 +545,6 @@ def _check_loop(ctx: Ctx, m: pf.Module, name: str, limited: bool, de: cf.DelayEv
 
 def _check_delay(ctx: Ctx, m: pf.Module):
     fn = m.func('delay_ms_for_try')
-    consts = {}
-    for name in ('LOG_2_MAX_MULTIPLIER', 'DEFAULT_MAX_DELAY_MS', 'DEFAULT_BASE_DELAY_MS'):
-        v = m.global_assign(name)
-        ctx.need(isinstance(v, ast.Constant) and isinstance(v.value, int), f'{name} is not an integer literal')
-        consts[name] = v.value
     # parameters: (tries, base_delay_ms, max_delay_ms) and then any number of OPTIONAL extras (a floor, an additive extra, ...): the function is decided
     # at the defaults here (that is what the documented band speaks about); a call site that binds an extra is decided there (R2), by
     # evaluating this body with the abstract value it passes
@@ -338,8 +553,16 @@ def _check_delay(ctx: Ctx, m: pf.Module):
     ctx.need(args[:3] == ['tries', 'base_delay_ms', 'max_delay_ms'], f'delay_ms_for_try parameters changed: {args}')
     pos_defaults = dict(zip(args[len(args) - len(fn.args.defaults):], fn.args.defaults))
     kw_defaults = {a.arg: d for a, d in zip(fn.args.kwonlyargs, fn.args.kw_defaults)}
-    defaults = [pf.nsrc(pos_defaults[p]) if p in pos_defaults else None for p in args[1:3]]
-    ctx.need(defaults == ['DEFAULT_BASE_DELAY_MS', 'DEFAULT_MAX_DELAY_MS'], f'delay_ms_for_try defaults changed: {defaults}')
+    dvals = [_int_const(m, pos_defaults[p]) if p in pos_defaults else None for p in args[1:3]]
+    ctx.need(all(v is not None for v in dvals), f'delay_ms_for_try: base_delay_ms / max_delay_ms have no integer (module constant) defaults')
+    # module-level integer constants the body reads (whatever they are called)
+    local_names = set(pf.assignments(fn))
+    consts: Dict[str, int] = {}
+    for n in ast.walk(fn):
+        if isinstance(n, ast.Name) and isinstance(n.ctx, ast.Load) and n.id not in local_names and n.id not in consts:
+            v = _int_const(m, n)
+            if v is not None:
+                consts[n.id] = v
     extras: Dict[str, object] = {}
     for pname, d in list(pos_defaults.items()) + list(kw_defaults.items()):
         if pname in args[:3]:
@@ -350,10 +573,9 @@ def _check_delay(ctx: Ctx, m: pf.Module):
             ctx.need(d is not None and _int_const(m, d) is not None, f'delay_ms_for_try: parameter `{pname}` has no integer / None default (every caller would have to pass it: not analysed)')
             extras[pname] = _int_const(m, d)
     ctx.need(set(extras) == set(args[3:]) | set(kw_defaults), f'delay_ms_for_try: a parameter after max_delay_ms has no default ({args})')
-    base, mx, K = consts['DEFAULT_BASE_DELAY_MS'], consts['DEFAULT_MAX_DELAY_MS'], consts['LOG_2_MAX_MULTIPLIER']
-    ctx.need(base >= 1 and mx >= 1 and 0 <= K <= 62, 'delay constants out of the analysed range')
+    base, mx = dvals  # type: ignore[misc]
     # tries may only be used through a clamp min(tries, .., <const>, ..) so that finitely many cases are exhaustive
-    uses = [n for n in ast.walk(fn) if isinstance(n, ast.Name) and n.id == 'tries' and isinstance(n.ctx, ast.Load)]
+    uses = [n for n in ast.walk(fn) if isinstance(n, ast.Name) and n.id == args[0] and isinstance(n.ctx, ast.Load)]
     par = {c: p for p in ast.walk(fn) for c in ast.iter_child_nodes(p)}
     clamp: Optional[int] = None
     for u in uses:
@@ -372,6 +594,23 @@ def _check_delay(ctx: Ctx, m: pf.Module):
         break
     hi_try = (clamp + 3) if clamp is not None else 80
     exhaustive = clamp is not None
+    K = clamp if clamp is not None else 62  # the exponent at which the growth stops (LOG_2_MAX_MULTIPLIER today)
+    ctx.need(base >= 1 and mx >= 1 and 0 <= K <= 62, 'delay constants out of the analysed range')
+    # the interval of a value is exact only while every random draw flows into the result once; a draw read twice (x - x) is over-approximated
+    rnd: Set[str] = set()
+    changed = True
+    while changed:
+        changed = False
+        for nm, ds in pf.assignments(fn).items():
+            if nm in rnd:
+                continue
+            for d in ds:
+                if isinstance(d, ast.AST) and any((isinstance(x, ast.Call) and (pf.dotted(x.func) or '').split('.')[0] in ('random', 'randrange', 'randint', 'uniform', 'secrets'))
+                                                 or (isinstance(x, ast.Name) and x.id in rnd) for x in ast.walk(d)):
+                    rnd.add(nm)
+                    changed = True
+    reads = {nm: sum(1 for x in ast.walk(fn) if isinstance(x, ast.Name) and isinstance(x.ctx, ast.Load) and x.id == nm) for nm in rnd}
+    precise = all(v <= 1 for v in reads.values())
     bad = []
     samples = []
     over_max = []
@@ -399,6 +638,9 @@ def _check_delay(ctx: Ctx, m: pf.Module):
         if top is None or got.hi >= top[3]:
             top = (t, repr(got), repr(want), got.hi)
     cons = f'{F}::delay_ms_for_try'
+    if (bad or over_max) and not precise:
+        raise AnalysisError(f'delay_ms_for_try: a random draw is read more than once ({sorted(k for k, v in reads.items() if v > 1)}): the interval of the result is only an '
+                            f'over-approximation and it leaves the documented band: not decided')
     if bad:
         t, g, w = bad[0]
         ctx.bad('R3', cons, f'for tries={t} the delay ranges over {g} ms but the documented jittered band capped at max_delay_ms={mx} is {w} '
@@ -523,13 +765,103 @@ def _chain_targets(m: pf.Module, fn: pf.FuncDef, e: ast.AST, ev: str, bound: Opt
     return None
 
 
+def _split_returns(stmts: Sequence[ast.stmt]) -> List[ast.stmt]:
+    """A copy of the statements in which `return A if c else B` is `if c: return A / else: return B`, and `return a and b` / `return a or b` whose last
+    operand is a boolean literal is the if-statement it abbreviates (so that the truth-table walk sees the test)."""
+    import copy
+
+    class _R(ast.NodeTransformer):
+        def visit_FunctionDef(self, node):
+            return node
+        visit_AsyncFunctionDef = visit_FunctionDef
+        visit_Lambda = visit_FunctionDef
+
+        def visit_Return(self, node: ast.Return):
+            v = node.value
+            if isinstance(v, ast.IfExp):
+                a = self.visit_Return(ast.copy_location(ast.Return(value=v.body), node))
+                b = self.visit_Return(ast.copy_location(ast.Return(value=v.orelse), node))
+                return ast.copy_location(ast.If(test=v.test, body=[a], orelse=[b]), node)
+            if isinstance(v, (ast.BoolOp, ast.Compare)) or (isinstance(v, ast.UnaryOp) and isinstance(v.op, ast.Not)) or (isinstance(v, ast.Call) and pf.dotted(v.func) == 'isinstance'):
+                # the callers only look at the truth value
+                return ast.copy_location(ast.If(test=v, body=[ast.copy_location(ast.Return(value=ast.Constant(value=True)), node)],
+                                                orelse=[ast.copy_location(ast.Return(value=ast.Constant(value=False)), node)]), node)
+            return node
+    out = [_R().visit(copy.deepcopy(s)) for s in stmts]
+    for s in out:
+        ast.fix_missing_locations(s)
+    _KEEP.extend(out)
+    return out
+
+
+def _default_outcomes(ctx: Ctx, m: pf.Module, fn: pf.FuncDef, name: str) -> Set[str]:
+    """What the classifier returns for an exception that matches none of its class tests and has no cause / context: the body is walked with
+    every `isinstance(e, ..)` false and every test of the (absent) chain entry decided; every other atom takes both truth values.
+    -> subset of {'False', 'True', 'other'} ('other' = a computed value, falling off the end, raising)."""
+    ev = fn.args.args[0].arg
+    body = _split_returns([s for s in fn.body if not isinstance(s, (ast.Import, ast.ImportFrom)) and not (isinstance(s, ast.Expr) and isinstance(s.value, ast.Constant))])
+
+    def chain_entry(x: ast.AST) -> bool:
+        if isinstance(x, ast.Name) and x.id == ev:
+            return False
+        t = _chain_targets(m, fn, x, ev)
+        return bool(t) and all(a in ('None', '__cause__', '__context__') for a in t)  # type: ignore[union-attr]
+
+    def fixed(atom: ast.AST) -> Optional[bool]:
+        if isinstance(atom, ast.Call) and pf.dotted(atom.func) == 'isinstance' and len(atom.args) == 2 and (pf.nsrc(atom.args[0]) == ev or chain_entry(atom.args[0])):
+            return False
+        if isinstance(atom, ast.Compare) and len(atom.ops) == 1 and isinstance(atom.comparators[0], ast.Constant) and atom.comparators[0].value is None \
+                and chain_entry(atom.left):
+            if isinstance(atom.ops[0], (ast.Is, ast.Eq)):
+                return True
+            if isinstance(atom.ops[0], (ast.IsNot, ast.NotEq)):
+                return False
+        if isinstance(atom, (ast.Name, ast.Attribute, ast.Call)) and chain_entry(atom):
+            return False
+        return None
+
+    keys: List[str] = []
+    outs: Set[str] = set()
+    while True:
+        again = False
+        outs = set()
+        for fv in absdom.valuations(keys):
+            def val(atom: ast.AST) -> bool:
+                f = fixed(atom)
+                if f is not None:
+                    return f
+                k = absdom.atom_key(atom)
+                if k not in fv:
+                    keys.append(k)
+                    raise KeyError(k)
+                return fv[k]
+            try:
+                o = absdom.walk_block(body, val)
+            except KeyError:
+                again = True
+                break
+            if o.kind == 'return' and isinstance(o.node.value, ast.Constant) and isinstance(o.node.value.value, bool):  # type: ignore[union-attr]
+                outs.add(str(o.node.value.value))  # type: ignore[union-attr]
+            else:
+                outs.add('other')
+        if not again:
+            return outs
+        ctx.need(len(keys) <= 10, f'{name}: too many undecided tests on the default path ({keys[:4]} ...)')
+
+
 def _check_classifier(ctx: Ctx, m: pf.Module, name: str, follows_cause: bool):
     fn = m.func(name)
-    last = fn.body[-1]
     cons = f'{F}::{name}'
-    ctx.check(isinstance(last, ast.Return) and isinstance(last.value, ast.Constant) and last.value.value is False,
-              'R4', cons + '::default', f'last statement is `{pf.nsrc(last)}`, expected `return False` (unknown errors are not retried)', m.path, last.lineno)
     ev = fn.args.args[0].arg
+    # default: an exception of an unknown class without a cause is not retried
+    outs = _default_outcomes(ctx, m, fn, name)
+    if outs == {'False'}:
+        ctx.ok('R4', cons + '::default', 'an exception that matches no class test and has no cause is classified False')
+    elif outs == {'True'}:
+        ctx.bad('R4', cons + '::default', f'{name} returns True for an exception that matches none of its class tests and has no `__cause__` (every path on which all '
+                f'`isinstance({ev}, ..)` tests fail ends in `return True`): unknown errors are retried instead of being raised at once', m.path, fn.body[-1].lineno)
+    else:
+        raise AnalysisError(f'{name}: the value returned for an exception that matches no class test and has no cause is not a constant on every path ({sorted(outs)}): not decided')
     rec = [c for c in pf.walk_shallow(fn) if isinstance(c, ast.Call) and pf.dotted(c.func) == name and len(c.args) == 1]
     followed: Set[str] = set()
     for c in rec:
@@ -546,7 +878,19 @@ def _check_classifier(ctx: Ctx, m: pf.Module, name: str, follows_cause: bool):
                     f'raised while a transient one was being handled - e.g. `except asyncio.TimeoutError: raise KeyError(k)` - is classified as transient and retried for ever '
                     f'instead of being raised immediately', m.path, fn.lineno)
         elif '__cause__' not in chain:
-            ctx.bad('R4', cons + '::cause', f'{name} never recurses into `e.__cause__`: chained errors (`raise X from <transient>`) are not classified', m.path, fn.lineno)
+            # positive evidence only: nothing in the classifier (or in anything it hands the exception to) can look at the chain
+            mentions = any((isinstance(x, ast.Attribute) and x.attr in ('__cause__', '__context__', '__traceback__')) or (isinstance(x, ast.Constant) and x.value in ('__cause__', '__context__'))
+                           for x in ast.walk(fn))
+            loops = any(isinstance(x, (ast.While, ast.For, ast.AsyncFor, ast.Try)) for x in ast.walk(fn))
+            hands_on = [c for c in pf.walk_shallow(fn) if isinstance(c, ast.Call) and pf.dotted(c.func) not in ('isinstance', 'type', 'str', 'repr', 'id')
+                        and (pf.dotted(c.func) or '').split('.')[0] not in _INERT_ROOTS
+                        and any(isinstance(x, ast.Name) and x.id == ev for x in list(c.args) + [k.value for k in c.keywords])]
+            rebinds = len(pf.assignments(fn).get(ev, [])) > 1
+            why = 'mentions the chain attributes' if mentions else 'a loop / comprehension / try' if loops else 're-binds the parameter' if rebinds else \
+                ('hands the exception to `' + pf.nsrc(hands_on[0])[:60] + '`') if hands_on else ''
+            ctx.need(not why, f'{name}: no recursion into `{ev}.__cause__` was recognised, but the chain may be followed in a form that is not understood ({why})')
+            ctx.bad('R4', cons + '::cause', f'{name} never looks at `{ev}.__cause__` (no read of the attribute, no loop, the exception is handed to nothing but isinstance): chained errors '
+                    f'(`raise X from <transient>`) are not classified', m.path, fn.lineno)
         else:
             ctx.need(chain == {'__cause__'}, f'{name}: follows {sorted(chain)} (not understood)')
             ctx.ok('R4', cons + '::cause', 'recurses into e.__cause__ only')
@@ -555,18 +899,46 @@ def _check_classifier(ctx: Ctx, m: pf.Module, name: str, follows_cause: bool):
 
 
 def _check_delegate(ctx: Ctx, m: pf.Module, name: str, target: str):
+    """The public wrapper is nothing but a call of the analysed loop with its own operation / arguments handed on.  There is no FAIL here: a wrapper
+    that does anything else is simply not covered by the analysis of the loop (declined)."""
     fn = m.func(name)
-    body = [s for s in fn.body if not (isinstance(s, ast.Expr) and isinstance(s.value, ast.Constant))]
-    ok = False
-    if len(body) == 1 and isinstance(body[0], ast.Return):
-        c = body[0].value
-        if isinstance(c, ast.Await):
-            c = c.value
-        if isinstance(c, ast.Call) and pf.dotted(c.func) == target:
-            # f, *args, **kwargs forwarded
-            fwd = [pf.nsrc(a) for a in c.args]
-            ok = 'f' in fwd and '*args' in fwd and any(k.arg is None and pf.nsrc(k.value) == 'kwargs' for k in c.keywords)
-    ctx.check(ok, 'R5', f'{F}::{name}', f'does not simply delegate to {target}(…, f, *args, **kwargs)', m.path, fn.lineno)
+    tfn = m.func(target)
+    cons = f'{F}::{name}'
+    calls = [c for c in pf.walk_shallow(fn) if isinstance(c, ast.Call) and pf.dotted(c.func) == target]
+    ctx.need(len(calls) == 1, f'{name}: expected exactly one call of {target} (found {len(calls)}): not a plain delegation (not analysed)')
+    c = calls[0]
+    ctx.need(not any(isinstance(x, (ast.While, ast.For, ast.AsyncFor, ast.Try, ast.With, ast.AsyncWith, ast.Raise)) for x in pf.walk_shallow(fn)),
+             f'{name}: loops / try / with around the delegation (not analysed)')
+    rets = [r for r in pf.walk_shallow(fn) if isinstance(r, ast.Return)]
+    ctx.need(bool(rets), f'{name}: no return')
+    for r in rets:
+        v = pf.resolve_expr(fn, r.value) if r.value is not None else None
+        if isinstance(v, ast.Await):
+            v = v.value
+        ctx.need(v is c, f'{name}: `{pf.nsrc(r)[:80]}` does not return the result of {target}(...) (not analysed)')
+    # the operation handed to the loop is the wrapper's own, with its own arguments
+    ctx.need(not tfn.args.posonlyargs and not fn.args.posonlyargs, f'{target}: positional-only parameters')
+    tparams = [a.arg for a in tfn.args.args]
+    tcalls = [x for x in ast.walk(tfn) if isinstance(x, ast.Call) and isinstance(x.func, ast.Name) and x.func.id in tparams]
+    ctx.need(len({x.func.id for x in tcalls}) == 1, f'{target}: the operation parameter is not recognised')  # type: ignore[attr-defined]
+    op = tcalls[0].func.id  # type: ignore[attr-defined]
+    plain = [a for a in c.args if not isinstance(a, ast.Starred)]
+    stars = [a for a in c.args if isinstance(a, ast.Starred)]
+    ctx.need(all(not isinstance(a, ast.Starred) for a in c.args[:len(plain)]), f'{name}: `{pf.nsrc(c)[:80]}`: starred argument ahead of positional ones')
+    bound: Dict[str, ast.AST] = dict(zip(tparams, plain))
+    for k in c.keywords:
+        if k.arg is not None:
+            bound[k.arg] = k.value
+    own = {a.arg for a in fn.args.args + fn.args.kwonlyargs}
+    opv = bound.get(op)
+    ctx.need(isinstance(opv, ast.Name) and opv.id in own and len(pf.assignments(fn).get(opv.id, [])) == 1,
+             f'{name}: the operation handed to {target} is `{pf.nsrc(opv) if opv is not None else "<missing>"}`, not a parameter of the wrapper (not analysed)')
+    va, kw = fn.args.vararg, fn.args.kwarg
+    ok_va = (va is None and not stars) or (va is not None and len(stars) == 1 and isinstance(stars[0].value, ast.Name) and stars[0].value.id == va.arg and len(plain) == len(tparams))
+    dstar = [k for k in c.keywords if k.arg is None]
+    ok_kw = (kw is None and not dstar) or (kw is not None and len(dstar) == 1 and isinstance(dstar[0].value, ast.Name) and dstar[0].value.id == kw.arg)
+    ctx.need(ok_va and ok_kw, f'{name}: `{pf.nsrc(c)[:100]}` does not hand on *{va.arg if va else ""} / **{kw.arg if kw else ""} as they are (not analysed)')
+    ctx.ok('R5', cons, f'returns {target}(..., {opv.id}, *{va.arg if va else ""}, **{kw.arg if kw else ""})')  # type: ignore[union-attr]
 
 
 # ------------------------------------------------------------------------------------------------
@@ -757,8 +1129,12 @@ def _check_subsumption(ctx: Ctx, m: pf.Module) -> int:
     ctx.need(ev_r == ev_t, 'classifiers name their parameter differently')
     ev = ev_r
 
+    _bodies: Dict[int, List[ast.stmt]] = {}
+
     def body_of(fn):
-        return [s for s in fn.body if not isinstance(s, (ast.Import, ast.ImportFrom)) and not (isinstance(s, ast.Expr) and isinstance(s.value, ast.Constant))]
+        if id(fn) not in _bodies:
+            _bodies[id(fn)] = _split_returns([s for s in fn.body if not isinstance(s, (ast.Import, ast.ImportFrom)) and not (isinstance(s, ast.Expr) and isinstance(s.value, ast.Constant))])
+        return _bodies[id(fn)]
     # classes mentioned by the rate-limit classifier, with their subclass relation
     classes: List[str] = []
     for c in ast.walk(rl):
@@ -853,27 +1229,30 @@ def _check_subsumption(ctx: Ctx, m: pf.Module) -> int:
                 if isinstance(rv, ast.Constant) and isinstance(rv.value, bool):
                     outs.add(rv.value)
                 else:
-                    outs |= {True, False}  # recursion into a chained / component exception: unknown
+                    outs.add('unknown')  # recursion into a chained / component exception: not evidence either way
             if not again:
                 break
             if len(keys) > 14:
                 raise Undecided('too many free atoms')
-        return (False in outs), (True in outs), keys
+        return (False in outs), (True in outs), keys, ('unknown' in outs)
 
     n = 0
     cons = f'{F}::is_rate_limit_error implies is_transient_error'
     counter = None
+    undecided: List[Tuple[str, int]] = []
     try:
         for cls in classes:
             for status in sorted(statuses) + [OTHER]:
                 for tv in absdom.valuations(sorted(tokens)):
                     n += 1
-                    r_false, r_true, _ = run(rl, cls, status, tv)
-                    if not r_true:
+                    r_false, r_true, _, r_unknown = run(rl, cls, status, tv)
+                    if not (r_true or r_unknown):
                         continue
-                    t_false, t_true, keys = run(te, cls, status, tv)
-                    if t_false and counter is None:
+                    t_false, t_true, keys, t_unknown = run(te, cls, status, tv)
+                    if r_true and t_false and counter is None:
                         counter = (cls, status, tv, keys)
+                    elif (r_unknown and (t_false or t_unknown)) or (r_true and t_unknown):
+                        undecided.append((cls, status))
     except Undecided as e:
         raise AnalysisError(f'R7: classifier shape not understood: {e}')
     if counter is not None:
@@ -881,6 +1260,9 @@ def _check_subsumption(ctx: Ctx, m: pf.Module) -> int:
         ctx.bad('R7', cons, f'an exception of class {cls} with status {"<any other>" if status == OTHER else status} and body tokens {tv} is accepted by is_rate_limit_error but '
                 f'is_transient_error can return False for it: sync_retry_transient_errors (which asks only is_transient_error) raises this rate-limit failure on its first occurrence '
                 f'instead of retrying it until it succeeds', m.path, rl.lineno)
+    elif undecided:
+        raise AnalysisError(f'R7: for {undecided[0]} a classifier returns a computed value (a recursive call / an expression), so whether the rate-limit failure is also '
+                            f'transient is not decided')
     else:
         ctx.ok('R7', cons, {'abstract_states': n, 'classes': classes, 'statuses': sorted(statuses), 'tokens': sorted(tokens)})
     return n
